@@ -236,6 +236,71 @@ pub fn run_mem_family(ctx: &Ctx, fam: &MemFamily) -> Stats {
         }
     });
     total.merge(st);
+    // ---- long buffers: lengths around powers of two up to 2^16, planted unit near both ends
+    if !fw::should_stop() {
+        let long_lens = super::valfam::long_lengths();
+        let st2 = par_run(ctx, nf * LANES, |part, st| {
+            let f = fam.fns[part / LANES];
+            let lane = part % LANES;
+            let mut rn = MemRunner::new();
+            let u16src = matches!(f.src_kind(), SrcKind::U16 | SrcKind::Latin1U16);
+            let latin1 = f.src_kind() == SrcKind::Latin1;
+            let nclasses = if u16src { memgen::PLANT16.len() } else if latin1 { memgen::PLANT_LATIN1.len() } else { memgen::PLANT8.len() };
+            for (li, &len) in long_lens.iter().enumerate() {
+                if li % LANES != lane {
+                    continue;
+                }
+                if fw::should_stop() {
+                    return;
+                }
+                for cls in 0..=nclasses {
+                    let positions: Vec<usize> = if cls == nclasses { vec![0] } else { super::valfam::long_positions(len) };
+                    for pos in positions {
+                        let (src8, src16) = if u16src {
+                            (vec![], if cls == nclasses { memgen::filler16(0, len) } else { memgen::plant16(0, len, pos, memgen::PLANT16[cls]) })
+                        } else if latin1 {
+                            let mut v = memgen::filler8(0, len);
+                            if cls < nclasses {
+                                v[pos] = memgen::PLANT_LATIN1[cls];
+                            }
+                            (v, vec![])
+                        } else {
+                            (if cls == nclasses { memgen::filler8(0, len) } else { memgen::plant8(0, len, pos, memgen::PLANT8[cls]) }, vec![])
+                        };
+                        let (sa, da) = fam.aligns[(pos + li) % fam.aligns.len()];
+                        let mut base = MemCase { f, src8, src16, dst_len: 0, src_align: sa, dst_align: da, fill: [0xA5, 0x00, 0xFF, 0x02][(pos + li) & 3] };
+                        base.sanitise();
+                        let n = base.src_len();
+                        let dsts: Vec<usize> = if f.is_partial() {
+                            let suff = f.sufficient(n);
+                            let mut d = vec![pos, pos + 1, pos + 2, pos + 3, n.saturating_sub(1), n, suff.saturating_sub(1), suff];
+                            d.retain(|x| *x <= suff + 1);
+                            d.sort();
+                            d.dedup();
+                            d
+                        } else {
+                            vec![f.min_dst(n).unwrap_or(0)]
+                        };
+                        for d in dsts {
+                            let mut c = base.clone();
+                            c.dst_len = d;
+                            st.evals += 1;
+                            st.nontrivial_distinct();
+                            st.class("long-buffer-(length-around-a-power-of-two-up-to-65536)");
+                            if let Some(flt) = eval_case_st(&mut rn, &c, fam.prop, fam.fills_mode, Some(st)) {
+                                let min = shrink_case(&c, fam.prop, fam.fills_mode);
+                                let flt2 = eval_case(&mut rn, &min, fam.prop, fam.fills_mode).unwrap_or(flt);
+                                st.violations.push(fault_to_violation(&min, &flt2));
+                                return;
+                            }
+                        }
+                    }
+                }
+            }
+        });
+        total.merge(st2);
+        total.exhaustive.push("per mem function: source lengths 2^k-2..=2^k+2 (k = 7..=12, 16) and 100/200/300/1000/3000 x every planted unit class at positions {0, 1, 15..17, middle, 65..1 from the end} x destination lengths at the planted position and the documented size".into());
+    }
     total.exhaustive.push(format!("per mem function: source lengths 0..={} x 4 fillers x every planted unit class at every position (plus, in ASCII filler, a second planted unit 1/2/5/15/16/17/32/64 units later) x alignments {:?} x destination lengths around the planted position and the documented size", fam.max_len, fam.aligns));
     if fw::should_stop() {
         return total;
